@@ -88,7 +88,13 @@ pub fn gen_event(rng: &mut Rng, p: &Pools, eng: &Eng, kind: Option<u16>) -> SemE
     let mut tags: Vec<Vec<String>> = vec![];
     if is_param(kind) {
         let d = rng.pick(&p.dvals).clone();
-        match rng.below(10) {
+        match rng.below(12) {
+            // a value-less d tag in FRONT of a valued one: the first tag named d decides, so this event has no address
+            // although the tag index files it under the later value
+            10 | 11 => {
+                tags.push(vec!["d".into()]);
+                tags.push(vec!["d".into(), d]);
+            }
             0 => {
                 // a non-"d" tag first, then the d tag
                 tags.push(vec!["t".into(), rng.pick(&p.tvals).clone()]);
